@@ -1,5 +1,6 @@
 //! Independent reference models (DESIGN.md §4).  Nothing in here calls zerv.
 pub mod calendar;
 pub mod pep440;
+pub mod render;
 pub mod sanitize;
 pub mod semver;
